@@ -732,3 +732,100 @@ Example generator_validator_disagree :
   let i := bmk_tin (x01 :: ex_b 1) (ex_b 1) bl_zero32 true false false true false (ex_b 3) (ex_b 4) in
   bl_tags_gen [true] [i] <> bl_tags_val [true] [i].
 Proof. intro i. intro H. vm_compute in H. discriminate H. Qed.
+
+(* ================= Part 7: exactly the requested outputs are blinded ================= *)
+
+Lemma upd_length {A} : forall (l : list A) i x, length (bl_upd l i x) = length l.
+Proof. induction l as [|h t IH]; intros [|i] x; cbn [bl_upd length]; auto. Qed.
+Lemma nth_error_upd {A} : forall (l : list A) i x j,
+  nth_error (bl_upd l i x) j = if ((i =? j) && (i <? length l))%nat then Some x else nth_error l j.
+Proof.
+  induction l as [|h t IH]; intros i x j.
+  { destruct i, j; cbn [bl_upd nth_error length]; try reflexivity; now rewrite Bool.andb_false_r. }
+  destruct i as [|i], j as [|j]; cbn [bl_upd nth_error length]; try reflexivity.
+  rewrite IH. cbn [Nat.eqb]. destruct (i =? j)%nat; cbn [andb]; [|reflexivity].
+  replace (S i <? S (length t))%nat with (i <? length t)%nat; [reflexivity|].
+  destruct (i <? length t)%nat eqn:E; symmetry; [apply Nat.ltb_lt in E; apply Nat.ltb_lt; lia | apply Nat.ltb_ge in E; apply Nat.ltb_ge; lia].
+Qed.
+Lemma bl_nth_some_lt {A} (l : list A) i x : bl_nth l i = Some x -> (N.to_nat i < length l)%nat.
+Proof. unfold bl_nth. destruct (i <? N.of_nat (length l))%N eqn:E; [|discriminate]. intros _. lia. Qed.
+Lemma bl_nth_none {A} (l : list A) i : bl_nth l i = None -> (length l <= N.to_nat i)%nat.
+Proof.
+  unfold bl_nth. destruct (i <? N.of_nat (length l))%N eqn:E; [|intros _; lia].
+  intros H. apply nth_error_None in H. exact H.
+Qed.
+
+Definition blinded_at (outs : list bl_pout) (j : nat) : bool :=
+  match nth_error outs j with Some o => bl_out_full o | None => false end.
+Definition asked_at (args : list bl_outarg) (j : nat) : bool := existsb (fun a => (N.to_nat (boa_idx a) =? j)%nat) args.
+
+Lemma write_out_blinded outs idx a v j : (j < length outs)%nat ->
+  blinded_at (bl_write_out outs idx a v) j = blinded_at outs j || (N.to_nat idx =? j)%nat.
+Proof.
+  intros Hj. unfold bl_write_out. destruct (bl_nth outs idx) as [o|] eqn:Ho.
+  - unfold blinded_at. rewrite nth_error_upd. pose proof (bl_nth_some_lt _ _ _ Ho) as Hlt.
+    destruct (N.to_nat idx =? j)%nat eqn:E.
+    + apply Nat.ltb_lt in Hlt. rewrite Hlt. cbn [andb]. unfold bl_out_full. cbn [bpo_open]. now rewrite Bool.orb_true_r.
+    + cbn [andb]. now rewrite Bool.orb_false_r.
+  - apply bl_nth_none in Ho. destruct (N.to_nat idx =? j)%nat eqn:E; [apply Nat.eqb_eq in E; lia|]. now rewrite Bool.orb_false_r.
+Qed.
+Lemma write_out_length outs idx a v : length (bl_write_out outs idx a v) = length outs.
+Proof. unfold bl_write_out. destruct (bl_nth outs idx); [apply upd_length|reflexivity]. Qed.
+
+Lemma write_outs_blinded last lv : forall args outs j, (j < length outs)%nat ->
+  blinded_at (bl_write_outs outs args last lv) j = blinded_at outs j || asked_at args j.
+Proof.
+  induction args as [|a rest IH]; intros outs j Hj; cbn [bl_write_outs asked_at existsb].
+  - now rewrite Bool.orb_false_r.
+  - rewrite IH by (rewrite write_out_length; exact Hj). rewrite write_out_blinded by exact Hj.
+    fold (asked_at rest j). now rewrite Bool.orb_assoc.
+Qed.
+Lemma write_outs_length last lv : forall args outs, length (bl_write_outs outs args last lv) = length outs.
+Proof. induction args as [|a rest IH]; intros outs; cbn [bl_write_outs]; [reflexivity|]. now rewrite IH, write_out_length. Qed.
+
+(* one blinder: afterwards an output is blinded iff it was before or it was among the (sorted) arguments *)
+Lemma blind_blinded fixp p owned iss args0 last vok s j :
+  bl_blind fixp p owned iss args0 last vok = BOk s -> (j < length (bps_outs p))%nat ->
+  length (bps_outs (bso_pset s)) = length (bps_outs p) /\
+  blinded_at (bps_outs (bso_pset s)) j = blinded_at (bps_outs p) j || asked_at (bl_sort args0) j.
+Proof.
+  unfold bl_blind. rewrite is_fully_blinded_false.
+  destruct (negb (forallb (bl_issarg_ok p) iss)); [discriminate|].
+  destruct (negb (forallb (bl_outarg_ok p) (bl_sort args0))); [discriminate|].
+  destruct (negb (bl_validate_args p owned (bl_sort args0) vok)); [discriminate|].
+  destruct (bl_input_scalar p iss owned None); [|discriminate].
+  destruct (bl_output_scalar fixp p o (bl_sort args0) last); [|discriminate].
+  destruct (rev (bl_sort args0)); [discriminate|].
+  destruct (if last then bl_last_vbf p b o0 else Some None); [|discriminate].
+  destruct (bl_sanity _); [|discriminate]. intros [= <-] Hj. cbn [bso_pset bps_outs].
+  split; [apply write_outs_length | now apply write_outs_blinded].
+Qed.
+
+(* the whole exchange: the outputs blinded at the end are exactly those some party asked for *)
+Theorem v2_blinded_exactly_requested fixp : forall ps p pf j,
+  bl_run fixp p ps = BOk pf -> (j < length (bps_outs p))%nat ->
+  blinded_at (bps_outs pf) j = blinded_at (bps_outs p) j || existsb (fun pa => asked_at (bl_sort (bpa_outs pa)) j) ps.
+Proof.
+  induction ps as [|pa rest IH]; intros p pf j Hrun Hj.
+  - cbn in Hrun. injection Hrun as <-. cbn [existsb]. now rewrite Bool.orb_false_r.
+  - rewrite bl_run_unfold in Hrun. destruct (bl_party_step fixp p pa (is_last rest)) as [s| |] eqn:Hs; try discriminate.
+    unfold bl_party_step in Hs. destruct (negb (bl_new_blinder p (bpa_owned pa))); [discriminate|].
+    destruct (blind_blinded _ _ _ _ _ _ _ _ j Hs Hj) as [Hlen Hb].
+    rewrite (IH _ _ j Hrun) by (rewrite Hlen; exact Hj). rewrite Hb. cbn [existsb]. now rewrite Bool.orb_assoc.
+Qed.
+
+(* pset v0: the write-back (as coded, when it does not run out of range) marks exactly the selection *)
+Definition marked_at {A} (w : list (option A)) (j : nat) : bool :=
+  match nth_error w j with Some (Some _) => true | _ => false end.
+Lemma v0_writeback_marks arr : forall sel outs w j, b0_writeback sel arr outs = BOk w -> (j < length outs)%nat ->
+  length w = length outs /\ marked_at w j = marked_at outs j || existsb (fun i => (N.to_nat i =? j)%nat) sel.
+Proof.
+  induction sel as [|idx rest IH]; intros outs w j; cbn [b0_writeback existsb].
+  - intros [= <-] _. now rewrite Bool.orb_false_r.
+  - destruct (bl_nth outs idx) as [y|] eqn:Ho; [|discriminate].
+    destruct (bl_nth arr idx) as [x|]; [|discriminate]. intros Hw Hj.
+    destruct (IH _ _ j Hw) as [Hlen Hm]; [rewrite upd_length; exact Hj|].
+    rewrite upd_length in Hlen. split; [exact Hlen|]. rewrite Hm. unfold marked_at at 1. rewrite nth_error_upd.
+    pose proof (bl_nth_some_lt _ _ _ Ho) as Hlt. apply Nat.ltb_lt in Hlt. rewrite Hlt, Bool.andb_true_r.
+    destruct (N.to_nat idx =? j)%nat; cbn [orb]; [now rewrite Bool.orb_true_r | reflexivity].
+Qed.
